@@ -110,7 +110,9 @@ def Analysis.s : Analysis → GQ
 /-- value of an independent source in the analysis domain, from its raw arguments -/
 def srcValue (an : Analysis) (args : List String) : Except String GQ :=
   let val (s : String) : Except String GQ :=
-    match parseVal s with | some r => .ok (GQ.ofRat r) | none => .error s!"unsupported:value:{s}"
+    -- a rational `p/q`, optionally braced, or a complex amplitude `re,im` (phasor sources)
+    let s' := if s.startsWith "{" && s.endsWith "}" then ((s.drop 1).dropEnd 1).toString else s
+    match GQ.parse s' with | some g => .ok g | none => .error s!"unsupported:value:{s}"
   match an, args with
   | .dc, ["dc", v] => val v
   | .dc, [v] => val v
